@@ -6,13 +6,16 @@ sys.path.insert(0, os.path.join(VERIF, 'checks'))
 import props
 
 CLAIMS = {
-    'C01': ('RF8 folder/interpreter signature agreement, RF7h pattern coverage, RF9 x86 pattern width/signedness/condition codes, '
-            'RF18 flag-producer preservation, RF7i replacement-language reader agreement',
+    'C01': ('RF8 folder/interpreter signature agreement, RF7h pattern coverage, RF9 x86 pattern width/signedness/condition codes and '
+            'integer memory classes, RF9m ModRM/SIB decision table, RF18 flag-producer preservation, RF7i replacement-language reader '
+            'agreement, RF33 indirect-jump CFG edges, RF34 narrowing in store-to-load forwarding, RF23/25/26 folding tables',
             'Decides named structural clauses that are necessary conditions of generator/interpreter equivalence: the GVN constant '
             'folder applies per opcode the same C operator on the same operand width/signedness as the interpreter; every opcode that '
             'reaches instruction selection has a pattern; x86 encodings carry the width, signedness and condition code the opcode name '
-            'demands; overflow-flag producers are not removed by shortcuts. It does not decide the optimisation passes, register '
-            'allocation or any value-level behaviour.', '3 C01'),
+            'demands; memory operands are encoded so that the CPU decodes the requested base/index/displacement; every indirect jump '
+            'has a CFG edge to every address-taken label; a reload after a narrow store is extended; overflow-flag producers are not '
+            'removed by shortcuts. It does not decide the optimisation passes in general, register allocation or any value-level '
+            'behaviour.', '3 C01'),
     'C02': ('opcode-signature agreement against the naming convention (RF8), interpreter dispatch exhaustiveness (RF7a), x86 tables '
             '(RF9), extension/narrowing maps (RF7e/7f)',
             'Decides, for every opcode, that interpreter, constant folder and x86 patterns use the operator, width and signedness that '
@@ -20,7 +23,8 @@ CLAIMS = {
             'inside one signature is not decided.', '3 C02'),
     'C03': ('machine-code template discipline of the wrapper / basic-block wrapper / thunks (RF11), thunk redirection through the '
             'code-write protocol (RF4d), label-operand position agreement between duplicator, simplifier and interpreter (RF7g), '
-            'interface switch protocol: single writer of the public address and thunk redirection on every setter path (RF31)',
+            'interface switch protocol: single writer of the public address and thunk redirection on every setter path (RF31), '
+            'indirect-jump CFG edges (RF33)',
             'Decides narrow structural necessary conditions of interface independence: the glue that switches a function from stub to '
             'generated code preserves every argument register and the stack, both thunk patterns have one size so retargeting never '
             'overwrites a neighbour, redirection writes go through the protected code-write path, label targets are rewired at the '
@@ -35,7 +39,8 @@ CLAIMS = {
             'while copying a callee are reset on every path. Register renaming and value-level behaviour are not decided.',
             '3 C04'),
     'C05': ('ABI constant agreement (RF10), block class mapping (RF10b), argument-register counter discipline (RF10c/d), long double '
-            'stack-slot alignment (RF10e), trampoline cache-key completeness (RF12), narrowing maps (RF7f), extension map (RF7e)',
+            'stack-slot alignment (RF10e), trampoline cache-key completeness and separation (RF12/RF12b), container growth not skipped '
+            '(RF3b), narrowing maps (RF7f), extension map (RF7e)',
             'Decides that every copy of the SysV argument/return register tables and counts in the FFI trampoline generator, the code '
             'generator and c2mir agree with the psABI and with each other; that block classes map to the register classes the psABI '
             'gives them; that register counters advance exactly for arguments passed in registers; that long double stack slots are '
@@ -51,7 +56,7 @@ CLAIMS = {
             'every keyword, type name, data element type the writer can print is accepted by the scanner. Numeric round trip of values '
             'is not decided.', '3 C10'),
     'C11': ('binary writer/reader vocabulary agreement (RF7d), label provenance (RF15), padding of type-punned temporaries (RF14), '
-            'tagged-union discipline (RF6)',
+            'tagged-union discipline (RF6), byte callbacks as the only sink/source (RF7j), encoder counter discipline (RF13c)',
             'Decides vocabulary agreement between write_* and read_*, that lref labels come from the reader\'s label table, and that no '
             'indeterminate byte reaches the output stream. Value encodings are not decided.', '3 C11'),
     'C12': ('bounded-write guard coverage in the decoder (RF13, including copy helpers), encoder counter discipline (RF13c), failure exits (RF13e)',
@@ -67,7 +72,8 @@ CLAIMS = {
             'Decides that both passes use the same kind predicates and per-kind size expressions, that bss is zeroed on every load, and '
             'that forward/export addresses come from the definition found in the module item table. Byte contents are not decided.',
             '3 C14'),
-    'C15': ('operand-mode table vs specification (RF17), call-family coverage (RF7b), error-branch discipline (RF16g/RF19)',
+    'C15': ('operand-mode table vs specification (RF17), call-family coverage (RF7b) and operand classification (RF19c), memory-operand '
+            'decision table (RF19), register look-up rule (RF16h)',
             'Decides the static table that the run-time validator consults, row by row against the documented grammar, and that error '
             'branches call the error function with a specific code.', '3 C15'),
     'C16': ('duplicate/restore protocol on every generation path (RF16a/b/i), label forwarding-pointer scrub (RF16j), label-operand '
